@@ -124,10 +124,11 @@ fn pass_1_internal(
             Item::Label(name) => {
                 #[cfg(feature = "verif")]
                 crate::verif::label(name, segment.t, cur_address, line);
-                if let Some(_) = common_context.set_label(name.clone(), (segment.t, cur_address)) {
+                if common_context.exist(name) {
                     // TODO: add display current string of mistake and previous location
                     bail!("Identifier {} is used twice, {}", name, line);
                 }
+                common_context.set_label(name.clone(), (segment.t, cur_address));
             }
             Item::Instruction(op, _) => match segment.t {
                 SegmentType::Code => {
